@@ -29,6 +29,14 @@ def gen(r, n):
     scs.append(dict(u=150, period=20, ta=None, grace=3, leak=0.7, dur=9, on_term="ignore", sigs=[(1.5, "HUP"), (2.5, "HUP")], as_script=True))
     # during a timeout grace period
     scs.append(dict(u=150, period=1, ta=1, grace=4, leak=0.7, dur=12, on_term="ignore", sigs=[(2.5, "TERM")]))
+    # the signal is sent while nextest has stopped itself (SIGTSTP earlier): it is received at SIGCONT -- the
+    # test gets it then, the grace period counts from then, nextest exits
+    scs.append(dict(u=150, period=20, ta=None, grace=2, leak=0.7, dur=12, on_term="ignore",
+                    sigs=[(1.5, "TSTP"), (2.5, "TERM"), (3.5, "CONT")]))
+    scs.append(dict(u=150, period=20, ta=None, grace=2, leak=0.7, dur=12, on_term="exit",
+                    sigs=[(1.5, "TSTP"), (2.5, "INT"), (3.5, "CONT")]))
+    scs.append(dict(u=150, period=20, ta=None, grace=0, leak=0.7, dur=12, on_term="ignore",
+                    sigs=[(1.5, "TSTP"), (2.5, "HUP"), (3.5, "CONT")]))
     while len(scs) < n:
         s1 = r.choice(SIGS)
         t1 = r.choice([1.5, 2.5])
@@ -44,6 +52,8 @@ def gen(r, n):
             sc["child"] = True
         if r.random() < 0.3:
             sc["bystander"] = 0.5
+        if sc["period"] == 20 and len(sigs) == 1 and isinstance(on_term, str) and r.random() < 0.25:
+            sc["sigs"] = [(t1 - 1, "TSTP"), (t1, s1), (t1 + 1, "CONT")]   # sent while stopped
         scs.append(sc)
     return scs
 
@@ -67,7 +77,7 @@ def run(tier, seed):
         chk.violation("broken-obligation", "e2e-build", dict(error=str(ex)[-3000:]), no_input=True)
         return chk.finish(gate, "make -C coq Properties/C11.vo", [])
     r = vlib.rng_for(seed, PROP)
-    scs = gen(r, 80 if tier == "thorough" else 20)
+    scs = gen(r, 84 if tier == "thorough" else 23)
     life_scs = []
     if U.check_family(chk, rig, scs, U.oracle_C11, "c11"):
         # the whole life of a unit: shutdown signals landing in the retry delay, or consumed by an attempt that
@@ -101,5 +111,6 @@ def replay(path, seed):
     sc = runs[0]["scenario"]
     o = U.run_scenarios(rig, [sc], par=1)[0]
     why = U.oracle_C11(sc, o)
-    print("oracle:", why or "accepts", "| compare:", U.compare(sc, U.predict([sc])[0], o))
+    print("oracle:", why or "accepts", "| compare:",
+          U.compare_any(sc, [U.predict([sc])[0], U.predict_alt([sc])[0]], o)[0])
     return 1 if why else 0
